@@ -4,8 +4,9 @@ deliveries (/tmp/seedout/Cxx/{patchN.diff,demoN_test.go,metaN.json}) and the eva
 (/tmp/seedeval*/Cxx-N.json written by tools/evalseed.py; later directories override earlier ones for 'detection')."""
 import glob, json, os, shutil, sys
 # (delivery directory, evaluation directories in order, offset added to the sub-agent's change number)
-ROUNDS = [('/tmp/seedout', [d for d in sorted(glob.glob('/tmp/seedeval*')) if '_r2' not in d], 0),
-          ('/tmp/seedout2', sorted(glob.glob('/tmp/seedeval_r2*')), 2)]
+ROUNDS = [('/tmp/seedout', [d for d in sorted(glob.glob('/tmp/seedeval*')) if '_r2' not in d and '_r3' not in d], 0),
+          ('/tmp/seedout2', sorted(glob.glob('/tmp/seedeval_r2*')), 2),
+          ('/tmp/seedout3', sorted(glob.glob('/tmp/seedeval_r3*')), 4)]
 OUT = '/verif/seeded'
 os.makedirs(OUT, exist_ok=True)
 rows = []
@@ -44,7 +45,7 @@ for p, EVALS, off in jobs:
     meta = dict(id=sid, breaks_property=prop, summary=am.get('summary'), file=am.get('file'), function=am.get('function'),
                 needs_to_manifest=am.get('needs'), example_input=am.get('example_input'), expected=am.get('expected'),
                 actual_with_change=am.get('actual_with_change'),
-                origin='written by a fresh sub-agent that was given only the text of the property and a scratch worktree of /repo (nothing from /verif)' + ('; second round: it was also told one-line summaries of the first-round changes for this property and asked for something of a different kind' if off else ''),
+                origin='written by a fresh sub-agent that was given only the text of the property and a scratch worktree of /repo (nothing from /verif)' + ('; later rounds: it was also told one-line summaries of the earlier changes for this property and asked for something of a different kind' if off else ''),
                 confirmed_by_us=confirm,
                 what_we_ran=['scratch worktree of /repo HEAD; cp demo_test.go; go test -run TestSeedDemo . (passes)',
                              'git apply patch.diff; go test -run TestSeedDemo . (fails); go build -tags verif ./...; go test -vet=off -count=1 ./... (passes)',
